@@ -249,8 +249,7 @@ def stop_only_queues_the_stop_marker_and_waits(q):
 # only after the frame's own confirmation (proved over the real CEMIHandler.send_telegram in C14; the same
 # lemma is an obligation of this property too: a change there breaks 'one at a time' here)
 
-import pyvc.api as _api  # noqa: E402
 from contracts import c14_cemi_routing as _c14  # noqa: E402
+from pyvc.api import rely_on  # noqa: E402
 
-_send_lemma = [l for l in _api.LEMMAS if l.fn is _c14.send_completes_only_after_a_later_confirmation][0]
-_api.lemma("C33", params=_send_lemma.params, **_send_lemma.cfg)(_c14.send_completes_only_after_a_later_confirmation)
+rely_on("C33", _c14.send_completes_only_after_a_later_confirmation)
